@@ -244,6 +244,9 @@ pub fn generate(seed: u64, w: &World, with_big: bool, with_stalls: bool) -> Valu
         // how the --output path is spelled: absolute, relative to the working directory, or
         // relative through a sub-directory; and the environment the tool starts in
         "output_form": *rng.pick(&["abs", "abs", "rel", "rel-sub"]),
+        // fault on the storage side: the output target (file or stdout) is a full device that
+        // accepts no bytes (/dev/full)
+        "sink": if rng.chance(1, 25) { "dev-full" } else { "normal" },
         "env": *rng.pick(&["clean", "clean", "rust-log-trace", "rust-log-cli-info", "locale-tz", "rust-log-trace"]),
         "fixture": fx.name,
         "script": script,
